@@ -33,9 +33,9 @@ RULE = ("Polygons are built by construction in a local frame and then scaled (1e
         "(touching the axis, or 0.01..1e4 sizes away; <=1e2 for the sampling sub-check) and a height offset of either sign: "
         "triangles, axis-aligned rectangles, convex polygons (affine images of polygons inscribed in a circle), star-shaped "
         "polygons with 4-10 vertices and radii 0.15..1 (mostly concave) and rotated/sheared/mirrored non-star templates "
-        "(L, U, comb, spiral, dart, bolt; 4-12 vertices); primitive_type csg or mesh (mesh only when it gives 3..64 toroidal "
-        "segments). geometry: every one of the 2n vertex orders (n cyclic rotations x 2 orientations) is constructed and "
-        "compared with the exact rational area/centroid/volume; non-trivial = concave or >=5 vertices. sampling: one drawn "
+        "(L, U, comb, spiral, dart, bolt; 4-12 vertices); primitive_type csg or mesh (mesh only when it gives 3..32 toroidal "
+        "segments). geometry: every one of the 2n vertex orders (n cyclic rotations x 2 orientations) is constructed (mesh "
+        "cases: one order per orientation as mesh, the others as csg) and compared with the exact rational area/centroid/volume; non-trivial = concave or >=5 vertices. sampling: one drawn "
         "vertex order, raysect RNG seeded from the case, N in {4000, 20000}; non-trivial = >=4 vertices, order rotated or "
         "reversed, and the triangles raysect's ear clipping makes for that order differ in area by >10 %. grid: 1-12 "
         "non-overlapping cells (lattice of rectangles / inscribed polygons); non-trivial = >=2 voxels with different volumes. "
@@ -339,7 +339,7 @@ def _finish_poly(shape, s, g, h, prim):
     ex = Exact(verts)
     if ex.degenerate:
         return None
-    if prim == "mesh" and not (3.2 <= mesh_segments(verts, ex) <= 64.0):
+    if prim == "mesh" and not (3.2 <= mesh_segments(verts, ex) <= 32.0):
         prim = "csg"
     out = {"kind": shape["kind"], "verts": verts, "kernel": kern, "tris": shape["tris"], "prim": prim}
     if "tmpl" in shape:
@@ -436,7 +436,7 @@ def grid_strategy(draw):
     if prim == "mesh":
         for p in cells:
             ex = Exact(p)
-            if ex.degenerate or not (3.2 <= mesh_segments(p, ex) <= 64.0):
+            if ex.degenerate or not (3.2 <= mesh_segments(p, ex) <= 32.0):
                 prim = "csg"
                 break
     return {"cells": cells, "prim": prim, "const": draw(_const), "lin": [draw(st.floats(-100.0, 100.0)), draw(_coef), draw(_coef)],
@@ -509,6 +509,12 @@ def _labels(ctx, poly, ex):
     return conc
 
 
+def _near(ctx, got, want, what, tol, info):
+    """scalar |got - want| <= tol (NaN fails)."""
+    if not abs(got - want) <= tol:
+        ctx.fail(what, "|got-want|=%.6g > tol %.3g: got %r want %r %s" % (abs(got - want), tol, got, want, info))
+
+
 def _check_voxel_numbers(ctx, vox, ex, bd, tag):
     """area / centroid / volume of one constructed voxel against the exact values."""
     with ctx.cut("accessors"):
@@ -516,12 +522,12 @@ def _check_voxel_numbers(ctx, vox, ex, bd, tag):
         c = vox.cross_section_centroid
         cx, cy = c.x, c.y
         vol = vox.volume
-    ctx.close(a, ex.fA, "area", rtol=4 * U, atol=SAFETY * bd["A"], info=tag)
-    ctx.close(cx, ex.fcx, "centroid-r", rtol=4 * U, atol=SAFETY * bd["cx"], info=tag)
-    ctx.close(cy, ex.fcy, "centroid-z", rtol=4 * U, atol=SAFETY * bd["cy"], info=tag)
-    ctx.close(vol, ex.fV, "volume", rtol=4 * U, atol=SAFETY * bd["V"], info=tag)
+    _near(ctx, a, ex.fA, "area", 4 * U * ex.fA + SAFETY * bd["A"], tag)
+    _near(ctx, cx, ex.fcx, "centroid-r", 4 * U * abs(ex.fcx) + SAFETY * bd["cx"], tag)
+    _near(ctx, cy, ex.fcy, "centroid-z", 4 * U * abs(ex.fcy) + SAFETY * bd["cy"], tag)
+    _near(ctx, vol, ex.fV, "volume", 4 * U * abs(ex.fV) + SAFETY * bd["V"], tag)
     # Pappus on the reported numbers themselves (same arithmetic: two products)
-    ctx.close(vol, TWO_PI * cx * a, "volume=2pi*rc*A", rtol=1e-14, info=tag)
+    _near(ctx, vol, TWO_PI * cx * a, "volume=2pi*rc*A", 1e-14 * abs(vol), tag)
     return a, cx, cy, vol
 
 
@@ -542,8 +548,11 @@ def run_geometry(case, ctx):
         for k in range(n):
             v = variant(verts, k, rev)
             tag = "[order: rot=%d rev=%s]" % (k, rev)
+            # the numbers do not depend on the primitive type: a mesh case builds two orders as mesh (one per
+            # orientation), the remaining ones as csg (a mesh costs 1-5 ms, a csg voxel 0.1-0.6 ms)
+            prim = case["prim"] if k == (n // 2 if rev else 0) else "csg"
             with ctx.cut("construct"):
-                vox = AxisymmetricVoxel(v, primitive_type=case["prim"])
+                vox = AxisymmetricVoxel(v, primitive_type=prim)
             got.append(_check_voxel_numbers(ctx, vox, ex, bd, tag))
     g = np.array(got)
     for col, name, key, ref in ((0, "area", "A", ex.fA), (1, "centroid-r", "cx", ex.fcx), (2, "centroid-z", "cy", ex.fcy),
@@ -898,7 +907,7 @@ def run_grid(case, ctx):
 
 
 SUBCHECKS = {
-    "geometry": Given(geometry_strategy, run_geometry, quick=3000, thorough=100000),
-    "sampling": Given(sampling_strategy, isolated("sampling", run_sampling), quick=3000, thorough=80000),
-    "grid": Given(grid_strategy, isolated("grid", run_grid), quick=2000, thorough=40000),
+    "geometry": Given(geometry_strategy, run_geometry, quick=2400, thorough=100000),
+    "sampling": Given(sampling_strategy, isolated("sampling", run_sampling), quick=2400, thorough=80000),
+    "grid": Given(grid_strategy, isolated("grid", run_grid), quick=1600, thorough=40000),
 }
